@@ -70,5 +70,20 @@ CHECKS["C15"] = dict(
     technique="TLA+ closure vs incremental-inference model checked with TLC; behaviours replayed on real descriptor-managed fields; relation-event traces validated against the trace spec",
 )
 
+CHECKS["C16"] = dict(
+    engine="FieldWrites",
+    category="model_checking",
+    text=("FieldWrites.tla: Python semantics of 13 write forms on a list- and a set-valued managed field with a monotone fact "
+          "base (layer R) against the setter/mutator algorithm (layer I: snapshot, clear, re-add; hooked mutators); TLC checks "
+          "KeepsData and InfersAlike for all sequences of 3 writes and refutes ClearBeforeCopy, CopyThroughSet and UnhookedExtend. "
+          "All 10 917 two-write sequences and a seeded sample of five-write sequences are replayed on a real instance with "
+          "list/tuple/generator/iterator arguments; after every write the exact list, the set, the graph relations and the "
+          "inverse fields of the elements are compared."),
+    design_ref="DESIGN.md §4 C16",
+    note=("Trusted: TLC, the transcription of Python list/set semantics into TLA+ (InsertAt, SetAt, Slice). The fact base is "
+          "monotone by design (no retraction)."),
+    technique="TLA+ model of field writes checked with TLC; enumerated and simulated write sequences replayed on real descriptor-managed fields",
+)
+
 NOT_YET = "check not built yet in this build round (specified in DESIGN.md §4; will be claimed when its TLA+ module and binding exist)"
 NOT_APPLICABLE = {}
